@@ -413,6 +413,24 @@ func failedEarlierRun(ps *progSet) {
 		"zzl = [1]\nzzq = [7, \"stale\", zzl[5]]\n", "zzl = [1]\nzzm = {\"a\": 7, \"b\": zzl[5]}\n", "zzl = [1]\nadd_key(zzk, zzl[5])\nprobe(7, zzl[5])\n", "zzl = [1]\nif false {\n} elif true {\nfor ;; {\nzzq = zzl[5]\n}\n}\n"}
 	src := b.String() + tails[failedEarlierRuns%len(tails)]
 	o := &runObs{}
+	// every fourth earlier run does not fail but is DEGENERATE: a blank or comment-only script, a script using such a script, a script
+	// that only exits (directly or in its callee) - runs that take the shortest way through the pooled task's life cycle
+	if failedEarlierRuns%4 == 1 && !ps.V2 {
+		degenerate := []map[string]string{
+			{"earlier.p": ""}, {"earlier.p": "# only a comment\n"}, {"earlier.p": "use(\"earlier2.p\")\n", "earlier2.p": ""},
+			{"earlier.p": b.String() + "if true {\nuse(\"earlier2.p\")\n}\nzzq = 1\n", "earlier2.p": "# nothing\n\n"},
+			{"earlier.p": "exit()\n"}, {"earlier.p": b.String() + "use(\"earlier2.p\")\n", "earlier2.p": "exit()\n"},
+			{"earlier.p": "\n\n"}, {"earlier.p": "use(\"earlier2.p\")\nuse(\"earlier2.p\")\n", "earlier2.p": "\n# blank\n"},
+		}
+		call, check := v1Tables(o)
+		ok, _ := engine.ParseScript(degenerate[(failedEarlierRuns/4)%len(degenerate)], call, check)
+		if sc := ok["earlier.p"]; sc != nil {
+			if pt, err := ps.Pt.build(); err == nil {
+				_ = sc.Run(pt, o)
+			}
+		}
+		return
+	}
 	if ps.V2 {
 		if sc, err := engine.ParseV2("earlier.p", src, v2Table(o)); err == nil {
 			_ = sc.Run(o)
@@ -449,9 +467,7 @@ func runOnce(ps *progSet, fireAt, budget int) runResult {
 				res.loadErr = err
 				return
 			}
-			if fireAt == 0 {
-				failedEarlierRun(ps) // between the load and the run: nothing in between restores what the failed run left
-			}
+			failedEarlierRun(ps) // between the load and the run: nothing in between restores what the failed run left
 			res.err = sc.Run(signalFor(o, fireAt))
 			return
 		}
@@ -478,9 +494,7 @@ func runOnce(ps *progSet, fireAt, budget int) runResult {
 			pt = input.InitPt(&input.Point{}, ps.Pt.Meas, tags, f, fixedTime)
 		}
 		res.pt = pt
-		if fireAt == 0 {
-			failedEarlierRun(ps) // between the load and the run: nothing in between restores what the failed run left
-		}
+		failedEarlierRun(ps) // between the load and the run (uninterrupted and cancelled runs alike): nothing in between restores what the earlier run left
 		if ps.Pt.Lz != "" { // the host process is in this zone while the script runs (and back in UTC afterwards)
 			if loc, lerr := time.LoadLocation(ps.Pt.Lz); lerr == nil {
 				old := time.Local
